@@ -400,6 +400,57 @@ def inline_procedures(body, func, prog, depth=0):
                         new = _subst_body(hb2, mapping, suffix=_suffix(func, h))
                         out.extend(inline_procedures(new, func, prog, depth + 1))
                         done = True
+        # `for t in _gen(args): BODY` with a private generator that yields at exactly one place:
+        # the generator's body with `yield E` replaced by `t = E; BODY`
+        if not done and isinstance(st, ast.For) and not st.orelse and isinstance(st.iter, ast.Call):
+            h, mapping = _private_callee(st.iter, func, prog)
+            if h is not None and h is not func:
+                hb = _helper_body(h)
+                yields = [x for x in walk_own(hb) if isinstance(x, (ast.Yield, ast.YieldFrom))]
+                own_jumps = []
+
+                def scan(stmts):
+                    for s_ in stmts:
+                        if isinstance(s_, (ast.Break, ast.Continue)):
+                            own_jumps.append(s_)
+                        elif isinstance(s_, (ast.For, ast.While, ast.FunctionDef, ast.ClassDef)):
+                            continue
+                        else:
+                            for fld in ("body", "orelse", "finalbody"):
+                                sub = getattr(s_, fld, None)
+                                if isinstance(sub, list) and sub and isinstance(sub[0], ast.stmt):
+                                    scan(sub)
+                            if isinstance(s_, ast.Try):
+                                for hd in s_.handlers:
+                                    scan(hd.body)
+                scan(st.body)
+                if len(yields) == 1 and isinstance(yields[0], ast.Yield) and yields[0].value is not None and not own_jumps \
+                        and not any(isinstance(x, ast.Return) and x.value is not None for x in walk_own(hb)):
+                    new = _subst_body(hb, mapping, suffix=_suffix(func, h))
+                    consumer_target, consumer_body = st.target, st.body
+
+                    def splice(stmts):
+                        out_ = []
+                        for s_ in stmts:
+                            if isinstance(s_, ast.Expr) and isinstance(s_.value, ast.Yield):
+                                out_.append(ast.Assign(targets=[copy.deepcopy(consumer_target)], value=s_.value.value, lineno=0, col_offset=0))
+                                out_.extend(copy.deepcopy(consumer_body))
+                                continue
+                            for fld in ("body", "orelse", "finalbody"):
+                                sub = getattr(s_, fld, None)
+                                if isinstance(sub, list) and sub and isinstance(sub[0], ast.stmt) and not isinstance(s_, (ast.FunctionDef, ast.ClassDef)):
+                                    setattr(s_, fld, splice(sub))
+                            if isinstance(s_, ast.Try):
+                                for hd in s_.handlers:
+                                    hd.body = splice(hd.body)
+                            out_.append(s_)
+                        return out_
+                    spliced = splice(new)
+                    if not any(isinstance(x, (ast.Yield, ast.YieldFrom)) and x is not None and False for x in ()):
+                        for x in spliced:
+                            ast.fix_missing_locations(x)
+                        out.extend(inline_procedures(spliced, func, prog, depth + 1))
+                        done = True
         rounds = 0
         while not done and not isinstance(st, (ast.FunctionDef, ast.ClassDef)) and rounds < 6:
             rounds += 1
@@ -676,6 +727,34 @@ def _as_expression(stmts):
     return None
 
 
+def split_tuple_assigns(body):
+    """`a, b = x, y`  ==>  `a = x; b = y` when no target name occurs in a later value (so that the simultaneous
+    assignment and the sequence mean the same)."""
+    class T(ast.NodeTransformer):
+        def visit_FunctionDef(self, node):
+            return node
+
+        def visit_Assign(self, node):
+            if len(node.targets) == 1 and isinstance(node.targets[0], (ast.Tuple, ast.List)) and isinstance(node.value, (ast.Tuple, ast.List)) \
+                    and len(node.targets[0].elts) == len(node.value.elts) \
+                    and not any(isinstance(x, ast.Starred) for x in node.targets[0].elts + node.value.elts) \
+                    and all(isinstance(t, ast.Name) for t in node.targets[0].elts):
+                names = [t.id for t in node.targets[0].elts]
+                for i, v in enumerate(node.value.elts):
+                    used = {x.id for x in ast.walk(v) if isinstance(x, ast.Name)}
+                    if used & set(names[:i]):
+                        return node
+                return [ast.copy_location(ast.Assign(targets=[t], value=v), node) for t, v in zip(node.targets[0].elts, node.value.elts)]
+            return node
+    out = []
+    for st in body:
+        r = T().visit(st)
+        out.extend(r if isinstance(r, list) else [r])
+    for st in out:
+        ast.fix_missing_locations(st)
+    return out
+
+
 def text_resolver(body, keep=()):
     """R(expr) -> normalised text of expr with single-assignment locals of `body` read as what they stand for
     (for comparing texts only: the substitution ignores evaluation order)."""
@@ -712,6 +791,7 @@ def nbody(func, prog=None, keep=()):
     if prog is not None:
         body = inline_procedures(body, func, prog)
         body = inline_single_returns(body, func, prog)
+    body = split_tuple_assigns(body)
     body = inline_aliases(body, [p.name for p in func.params], keep=keep)
     body = beta_reduce(body)
     cache[key] = body
